@@ -129,6 +129,22 @@ MUTANTS = [
     (DF, "        if value:\n            self._pairs.add(pair)\n        else:\n            self._pairs.discard(pair)", "        if value:\n            self._pairs.add(pair)", ['definitions.__setitem__'], 'breaks'),
     (DF, "            if p in properties:\n                pairs.add((obj, p))\n            else:\n                pairs.discard((obj, p))", "            if p in properties:\n                pairs.add((obj, p))", ['definitions.set_object'], 'breaks'),
     (DF, "        self._properties.move(prop, index)", "        self._objects.move(prop, index)", ['definitions.move_property'], 'breaks'),
+    (DF, "        return self._fromargs(self._objects.copy(),\n                              self._properties.copy(),\n                              self._pairs.copy())",
+         "        return self._fromargs(self._objects.copy(),\n                              self._properties.copy(),\n                              self._pairs)", ['definitions.copy'], 'breaks'),
+    (DF, "        return self._fromargs(self._properties.copy(), self._objects.copy(),", "        return self._fromargs(self._properties, self._objects.copy(),", ['definitions.transposed'], 'breaks'),
+    (DF, "{(p, o) for (o, p) in self._pairs})", "{(o, p) for (o, p) in self._pairs})", ['definitions.transposed'], 'breaks'),
+    (DF, "                               if (o, p) not in pairs})", "                               if (p, o) not in pairs})", ['definitions.inverted'], 'breaks'),
+    (DF, "        inst._pairs = _pairs\n        return inst", "        inst._pairs = set(_pairs)\n        return inst", ['definitions._fromargs'], 'breaks'),
+    (DF, "        if not ignore_conflicts:\n            ensure_compatible(self, other)\n        self._objects |= other._objects",
+         "        self._objects |= other._objects\n        if not ignore_conflicts:\n            ensure_compatible(self, other)", ['definitions.union_update'], 'breaks'),
+    (DF, "        self._pairs &= other._pairs", "        self._pairs |= other._pairs", ['definitions.intersection_update'], 'breaks'),
+    (DF, "        result = self.copy()\n        result.union_update(other, ignore_conflicts)\n        return result",
+         "        result = self\n        result.union_update(other, ignore_conflicts)\n        return result", ['definitions.union'], 'breaks'),
+    (DF, "        result = self.copy()\n        result.intersection_update(other, ignore_conflicts)", "        result = self.copy()\n        result.intersection_update(other)", ['definitions.intersection'], 'breaks'),
+    (DF, "    difference = left._pairs ^ right._pairs", "    difference = left._pairs | right._pairs", ['definitions.conflicting_pairs'], 'breaks'),
+    (DF, "    properties = left._properties & right._properties", "    properties = left._properties", ['definitions.conflicting_pairs'], 'breaks'),
+    (DF, "    if conflicts:\n        raise ValueError", "    if len(conflicts) > 1:\n        raise ValueError", ['definitions.ensure_compatible'], 'breaks'),
+    (DF, "        self.union_update(other)\n        return self", "        self.union_update(other, True)\n        return self", ['definitions.__ior__'], 'breaks'),
 ]
 
 
